@@ -59,7 +59,7 @@ void superlu_free(void *p) {
 void ifill(int_t *a, int_t alen, int_t v) { }
 double SuperLU_timer_(void) { double t; return t; }
 /* p?gstrf_WorkInit as the real one behaves (units work_init / work_init_user): first request fails -> nothing held, *iworkptr == NULL;
- * second request fails -> the integer block STAYS allocated and is handed out in *iworkptr, *dworkptr == NULL; value > n in both cases */
+ * second request fails -> the integer block is given back (fix edb781e; unit work_init [failure_holds_nothing]), *iworkptr keeps the stale address, *dworkptr == NULL; value > n in both cases */
 int_t p@p@gstrf_WorkInit(int_t n, int_t w, int_t **iw, @T@ **dw) {
   g_wi_calls++;
   __CPROVER_assert(n == in_A.nrow && w == in_o.panel_size, "WorkInit is asked for the work space of this matrix and panel size");
@@ -67,7 +67,7 @@ int_t p@p@gstrf_WorkInit(int_t n, int_t w, int_t **iw, @T@ **dw) {
   if (MAY(1)) { mode = nondet_int_t(); __CPROVER_assume(mode >= 0 && mode <= 2); }
   if (mode == 1) { *iw = NULL; int_t v = nondet_int_t(); __CPROVER_assume(v > in_A.ncol && v <= 1000000); g_failed = 1; g_fail_val = v; return v; }
   *iw = malloc(sizeof(int_t)); __CPROVER_assume(*iw != NULL); g_iwork_obj = *iw; g_iwork_live = 1;
-  if (mode == 2) { *dw = NULL; int_t v = nondet_int_t(); __CPROVER_assume(v > in_A.ncol && v <= 1000000); g_failed = 1; g_fail_val = v; return v; }
+  if (mode == 2) { free(*iw); g_iwork_live = 0; *dw = NULL; int_t v = nondet_int_t(); __CPROVER_assume(v > in_A.ncol && v <= 1000000); g_failed = 1; g_fail_val = v; return v; }
   *dw = malloc(sizeof(@T@)); __CPROVER_assume(*dw != NULL); g_dwork_obj = *dw; g_dwork_live = 1; g_wi_ok = 1;
   return 0;
 }
